@@ -36,7 +36,8 @@ import (
 
 const c16Stall = 30 * time.Second
 
-var c16Calls = []string{"PostingsOffsets", "PostingsOffset", "LabelValues", "LabelNames", "LookupSymbol", "IndexVersion"}
+// the last two hand out strings that alias the mmapped index-header ("aliasing" scenarios only)
+var c16Calls = []string{"PostingsOffsets", "PostingsOffset", "LabelNames", "IndexVersion", "LabelValues", "LookupSymbol"}
 
 func rngStrs(rs []index.Range) []string {
 	out := make([]string, len(rs))
@@ -46,55 +47,84 @@ func rngStrs(rs []index.Range) []string {
 	return out
 }
 
-// c16Call performs call number k (deterministic arguments) on r and returns kind and answer.
+// c16Call performs one call (deterministic arguments) on r and returns kind and answer.
+// kind: ok | error | panic (the call itself panicked or faulted) | dangling (the call returned
+// strings that could no longer be read right after it returned: LabelValues and LookupSymbol hand
+// out strings that alias the mmapped index-header).
 func c16Call(r indexheader.Reader, call string, arg int) (kind string, got []string) {
-	defer func() {
-		if p := recover(); p != nil {
-			kind, got = "panic", []string{fmt.Sprint(p)}
-		}
-	}()
-	var err error
+	var (
+		err  error
+		strs []string // strings handed out by the call, possibly aliasing the mmap
+	)
 	got = []string{}
-	switch call {
-	case "PostingsOffsets":
-		W := []string{absVal(arg % 5), absVal(arg%5 + 3), absVal(arg%5 + 3), absVal(arg%5 + 8), absVal(14)}
-		var rs []index.Range
-		if rs, err = r.PostingsOffsets("v", W...); err == nil {
-			got = rngStrs(rs)
-		}
-	case "PostingsOffset":
-		var rg index.Range
-		rg, err = r.PostingsOffset("v", absVal(2+2*(arg%7)))
-		if err == nil {
-			got = rngStrs([]index.Range{rg})
-		}
-	case "LabelValues":
-		var vs []string
-		if vs, err = r.LabelValues([]string{"v", "a", "z", "nosuch"}[arg%4]); err == nil {
-			for _, v := range vs {
-				got = append(got, string(append([]byte(nil), v...)))
+	func() {
+		defer func() {
+			if p := recover(); p != nil {
+				kind, got = "panic", []string{fmt.Sprint(p)}
+			}
+		}()
+		switch call {
+		case "PostingsOffsets":
+			W := []string{absVal(arg % 5), absVal(arg%5 + 3), absVal(arg%5 + 3), absVal(arg%5 + 8), absVal(14)}
+			var rs []index.Range
+			if rs, err = r.PostingsOffsets("v", W...); err == nil {
+				got = rngStrs(rs)
+			}
+		case "PostingsOffset":
+			var rg index.Range
+			rg, err = r.PostingsOffset("v", absVal(2+2*(arg%7)))
+			if err == nil {
+				got = rngStrs([]index.Range{rg})
+			}
+		case "LabelValues":
+			strs, err = r.LabelValues([]string{"v", "a", "z", "nosuch"}[arg%4])
+		case "LabelNames":
+			var vs []string
+			if vs, err = r.LabelNames(); err == nil {
+				got = append(got, vs...)
+			}
+		case "LookupSymbol":
+			var s string
+			if s, err = r.LookupSymbol(context.Background(), uint32(arg%6)); err == nil {
+				strs = []string{s}
+			}
+		case "IndexVersion":
+			var v int
+			if v, err = r.IndexVersion(); err == nil {
+				got = []string{fmt.Sprint(v)}
 			}
 		}
-	case "LabelNames":
-		var vs []string
-		if vs, err = r.LabelNames(); err == nil {
-			got = append(got, vs...)
-		}
-	case "LookupSymbol":
-		var s string
-		if s, err = r.LookupSymbol(context.Background(), uint32(arg%6)); err == nil {
-			got = []string{string(append([]byte(nil), s...))}
-		}
-	case "IndexVersion":
-		var v int
-		if v, err = r.IndexVersion(); err == nil {
-			got = []string{fmt.Sprint(v)}
-		}
+	}()
+	if kind == "panic" {
+		return kind, got
 	}
 	if err != nil {
 		return "error", []string{err.Error()}
 	}
+	// the call has returned: read what it handed out, as any caller would
+	func() {
+		defer func() {
+			if p := recover(); p != nil {
+				kind, got = "dangling", []string{fmt.Sprint(p)}
+			}
+		}()
+		for _, v := range strs {
+			got = append(got, string(append([]byte(nil), v...)))
+		}
+	}()
+	if kind == "dangling" {
+		return kind, got
+	}
 	return "ok", got
+}
+
+// c16KF: the known-finding class, decided from the scenario alone: calls that hand out strings
+// aliasing the mmapped header (LabelValues, LookupSymbol) while unloads can happen (idle sweeps or Close).
+func c16KF(c vt.Case) string {
+	if vt.Bool(c["aliasing"]) && (vt.Int(c["closes"]) > 0 || vt.Int(c["idle_us"]) < 1000000) {
+		return "aliased-answer-after-unload"
+	}
+	return ""
 }
 
 func TestC16(t *testing.T) {
@@ -167,6 +197,10 @@ func TestC16(t *testing.T) {
 		readers, calls := vt.Int(c["readers"]), vt.Int(c["calls"])
 		idle := time.Duration(vt.Int(c["idle_us"])) * time.Microsecond
 		closes := vt.Int(c["closes"])
+		ncalls := 4 // calls answering by value only
+		if vt.Bool(c["aliasing"]) {
+			ncalls = len(c16Calls)
+		}
 		rnd := rand.New(rand.NewSource(vt.Int64(c["sseed"])))
 		gmu.Lock()
 		gens = map[*indexheader.BinaryReader]int{}
@@ -179,7 +213,7 @@ func TestC16(t *testing.T) {
 			t.Fatalf("pool reader: %v", err)
 		}
 		lr := rd.(*indexheader.LazyBinaryReader)
-		tr.Emit(vt.Event{"ev": "case", "case": caseID, "in": c, "kf": ""})
+		tr.Emit(vt.Event{"ev": "case", "case": caseID, "in": c, "kf": c16KF(c)})
 		cur.Store(lr)
 
 		var wg sync.WaitGroup
@@ -208,7 +242,7 @@ func TestC16(t *testing.T) {
 				debug.SetPanicOnFault(true) // reading an unmapped header becomes a recoverable panic
 				r := rand.New(rand.NewSource(seed))
 				for i := 0; i < calls; i++ {
-					call := c16Calls[r.Intn(len(c16Calls))]
+					call := c16Calls[r.Intn(ncalls)]
 					arg := r.Intn(100)
 					kind, got := c16Call(lr, call, arg)
 					_, ref := c16Call(eager, call, arg)
@@ -276,7 +310,7 @@ func TestC16(t *testing.T) {
 			if vt.Bool(tc["closer"]) {
 				closes = 1 + rnd.Intn(3)
 			}
-			run(vt.Case{"src": "tlc", "readers": vt.Int(tc["readers"]), "calls": vt.Int(tc["calls"]), "idle_us": idle, "closes": closes, "sseed": rnd.Int63n(1 << 40)})
+			run(vt.Case{"src": "tlc", "readers": vt.Int(tc["readers"]), "calls": vt.Int(tc["calls"]), "idle_us": idle, "closes": closes, "aliasing": rep%3 == 2, "sseed": rnd.Int63n(1 << 40)})
 		}
 	}
 	n := vt.Pick(40, 300)
@@ -286,6 +320,6 @@ func TestC16(t *testing.T) {
 			closes = 1 + rnd.Intn(30)
 		}
 		run(vt.Case{"src": "rand", "readers": 1 + rnd.Intn(vt.Pick(4, 8)), "calls": 1 + rnd.Intn(vt.Pick(12, 25)),
-			"idle_us": []int{100, 300, 1000, 3000}[rnd.Intn(4)], "closes": closes, "sseed": rnd.Int63n(1 << 40)})
+			"idle_us": []int{100, 300, 1000, 3000}[rnd.Intn(4)], "closes": closes, "aliasing": i%3 == 2, "sseed": rnd.Int63n(1 << 40)})
 	}
 }
